@@ -1803,6 +1803,9 @@ class Interp:
                 sub = f"{obj.name}.{name}"
                 if extract.module_path(sub):
                     return load_module(sub)
+                if "__getattr__" in obj.defs and isinstance(obj.defs["__getattr__"], ast.FunctionDef):
+                    # PEP 562 module-level __getattr__
+                    return self.call(self.module_get(obj, "__getattr__"), [name], {})
                 self.raise_builtin("AttributeError", name)
         if isinstance(obj, Extern):
             return Extern(f"{obj.name}.{name}")
